@@ -20,10 +20,9 @@ ASSUMPTIONS = ['hash-order or identity-order nondeterminism of CPython cannot be
 def generated_workload(params, nticks):
     """structure of what the real WorkloadGenerator emits for these parameters (no scheduler involved)"""
     from eudoxia.workload import WorkloadGenerator
-    from eudoxia.simulator import get_param_defaults
-    p = dict(get_param_defaults())
-    p.update(params)
-    g = WorkloadGenerator(**p)
+    from eudoxia.simulator import parse_args_with_defaults
+    # the route of `eudoxia run` / `gentrace`: parameters are parsed (defaults filled in) and handed to the generator
+    g = WorkloadGenerator(**parse_args_with_defaults(dict(params)))
     out = []
     for t in range(nticks):
         for pl in g.run_one_tick():
@@ -50,7 +49,13 @@ def gen_hits(base, other, nt):
     b = sub(dict(kind='gen', params=other, nticks=nt), 12)
     c = sub(dict(kind='gen', params=dict(base, random_seed=base['random_seed'] + 1), nticks=nt), 11)
     d = sub(dict(kind='gen', params=dict(base, random_seed=42), nticks=nt), 11)
+    # seeds are arbitrary Python integers: one that differs only above bit 32 is a different seed
+    wide = base['random_seed'] + 2 ** 32 * (1 + base['random_seed'] % 3)
+    e = sub(dict(kind='gen', params=dict(base, random_seed=wide), nticks=nt), 11)
     out = []
+    if a == e and len(a) >= 12:
+        out.append(dict(desc=f'seeds {base["random_seed"]} and {wide} give the same workload',
+                        signature='seed-ignored', recipe=rec, gen='G-det-gen'))
     if a != b:
         out.append(dict(desc=f'the generated workload differs when only scheduler/executor settings change ({base})',
                         signature='workload-dependence', recipe=rec, gen='G-det-gen'))
